@@ -8,7 +8,7 @@ from common import Driver, DriverFailure, hx
 LEVEL = "proof"
 MANIFEST = dict(
     text="Lean 4 theorems over ALL field values (Python ints as Int, arbitrary byte strings and lists), stated about the definitions regenerated from the source on every run. (1) a constructor returns exactly for the in-range values, everything else raises (inRange_iff_encodes, encode_rejects). (2) for every one of the 24 packet message forms the content the constructor produces is decoded, by every handler class meant for it, to exactly the fields it was built from (roundtrip: generic struct pack/unpack inversion over the format strings read from the source; statp_roundtrip; reminders_roundtrip with signed days; setwc_roundtrip; files_roundtrip for every shipped platform name and EVERY pair of version numbers). (3) hello round trip for every spa name incl. names containing '|' (hello_roundtrip) and the broadcast / client forms. (4) the one regex of _extract_packet_parts is modelled as a backtracking matcher (leftmost start, greedy/lazy groups read from the source): framing round-trips for ARBITRARY payload bytes and all '<'-free identifier pairs (frame_roundtrip), replies are addressed back with source and destination swapped (reply_swaps), sender-to-receiver composition for every form (wire_roundtrip). (5) the content of EVERY message the library builds is accepted by exactly the handler class(es) of its verb among the standard classes, each datagram by exactly the hello / packet handler, verbs pairwise prefix-free, no orphan verbs (claimed_by_exactly, orphan_none, datagram_claimed, verbs_prefix_free). (6) the model reproduces all 83 byte vectors of tests/test_protocol.py (pinned_encode / pinned_decode / pinned_claims, re-extracted every run). What the code did before the fixes of D2/D3/D4 is kept as theorems about the explicit old parameters (hello_name_with_bar_fails, frame_roundtrip_fails, frame_roundtrip_greedy, hello_roundtrip_split, old_watercare_claims_miss_setwc_wcreq); the search tries those inputs first on every run."
-         " Since session 3: every search message is also decoded on ONE long-lived instance per handler class in the roles where the library keeps an instance alive (hello, async partial update, the simulator's request handlers) and must give the fields it was built from; hello_history_independent proves it for the hello handler over the generated reset list (Model/HelloObject.lean). Session 4: a long-lived partial-update handler acknowledges two packets from one address that carry different identifier pairs: each acknowledgement must be addressed from the packet it answers. State inventory of the decoders (decoder_state_inventory over the regenerated skeletons of the packet, status-block and hello handlers). Every framed message also travels through the connection`s own receive path (real datagram_received, real packet consumer, real _async_on_packet) and must reach the verb consumers byte for byte. Round 14: the simulator's fan-out of one change to several pinged clients - every datagram, rendered when taken off the send queue, carries its own client's identifiers. Round 15: the simulator's ping answers are rendered after all clients have pinged and each must carry its own client's identifiers; every run of up to three (thorough: four) framing tags as the content of a packet, through the awaitable receive path and the blocking packet handler.",
+         " Since session 3: every search message is also decoded on ONE long-lived instance per handler class in the roles where the library keeps an instance alive (hello, async partial update, the simulator's request handlers) and must give the fields it was built from; hello_history_independent proves it for the hello handler over the generated reset list (Model/HelloObject.lean). Session 4: a long-lived partial-update handler acknowledges two packets from one address that carry different identifier pairs: each acknowledgement must be addressed from the packet it answers. State inventory of the decoders (decoder_state_inventory over the regenerated skeletons of the packet, status-block and hello handlers). Every framed message also travels through the connection`s own receive path (real datagram_received, real packet consumer, real _async_on_packet) and must reach the verb consumers byte for byte. Round 14: the simulator's fan-out of one change to several pinged clients - every datagram, rendered when taken off the send queue, carries its own client's identifiers. Round 15: the simulator's ping answers are rendered after all clients have pinged and each must carry its own client's identifiers; every run of up to three (thorough: four) framing tags as the content of a packet, through the awaitable receive path and the blocking packet handler. Round 17: claimed_datagram_is_popped_before_any_await over the regenerated consume skeleton; the live connection's consumers (C07's rig) with a client handler that suspends longer than a polling interval - every datagram is popped by a consumer that accepts its verb.",
     note="Trusted: Lean kernel; harness/gen_c04.py (verbs, tags, struct formats per call site, can_handle verb lists, regex literals + greediness, hello split arity, literal payloads, platform names, test vectors: read from the source by ast; shapes outside the expected ones are refused); the hand-written slices / branch order / exception kinds of Model/Wire.lean and the backtracking reading of Python's re are tied to the code by a differential correspondence (real constructors' send_bytes, real handle(), every can_handle of every class, the real regex on an adversarial delimiter corpus, a malformed stream). latin-1 = identity on 0..255 is exercised, not proved. Layout oracle = the repository's own captured test vectors. int() inputs with signs/underscores/whitespace are out of model (skipped, counted). Identifiers are assumed free of '<'; STATP lists of the shape the 4-byte-record decoder reads; reminder types in GeckoReminderType; client identifiers start with IOS/AND.",
     technique="Lean 4 proofs by cases over an inductive message type + generic struct inversion + explicit backtracking-regex model; source-translated formats/verbs/regex shape; differential correspondence; encoder-decoder composition search on the real code",
     design="5/C04",
@@ -1130,6 +1130,37 @@ def search_markup_payloads(ctx, only=None):
                 return
 
 
+def search_claims_with_a_slow_client(ctx, only=None):
+    """'claimed by exactly its verb' on a LIVE connection whose client takes its time: the real consumer task set of a connection (C07's
+    rig), a client handler of the RF-error / watercare-error events that suspends for longer than a polling interval, datagrams of other
+    verbs arriving meanwhile - every datagram is taken out of the queue by a consumer that accepts its verb"""
+    import random
+    from common import Ctx
+    from props import c07
+    classes = c07.handler_classes()
+    for seed, slow in ((11, 250), (12, 400), (13, 120)):
+        if only is not None and only != [seed, slow]:
+            continue
+        rng = random.Random(seed)
+        arrivals = c07.gen_arrivals(rng, 60, 9000)
+        inp = {"kind": "claims-with-a-slow-client", "case": [seed, slow]}
+        try:
+            res = c07.run_connection(arrivals, seed, shuffle=True, jitter=0.0, horizon_s=11.0, slow_client_ms=slow)
+        except Exception as e:  # noqa
+            ctx.violation("slow-client:raised", inp, "the connection's consumers run", f"{type(e).__name__}: {e}")
+            continue
+        sub = Ctx("C07", "quick", 0)
+        c07.monitors(sub, res["trace"], res, classes, True, dict(inp))
+        ctx.count("evaluations", len(res["trace"].puts))
+        ctx.hist("claims_with_a_slow_client", f"handler suspends {slow} ms")
+        # (consumer deaths are C07's business - its generator also feeds unframed datagrams, which is outside this property; here: who pops what)
+        bad = [v for v in sub.violations if v["key"].startswith("incapable-pop")]
+        if bad:
+            ctx.violation("slow-client:" + bad[0]["key"].split(":")[0], inp, "every datagram is popped by a consumer that accepts its verb",
+                          {"popped by": str(bad[0].get("observed"))[:300], "datagram": str(bad[0].get("input", {}).get("datagram"))[:120]})
+            return
+
+
 def search_simulator_fanout(ctx):
     """"a message built from a received packet is addressed back with the sender's identifiers swapped", for the one message the
     simulator builds for SEVERAL senders at once: every client that has pinged is told about a change of the block. The datagrams
@@ -1212,6 +1243,10 @@ def run(ctx):
     search_layout(ctx)
     search_markup_payloads(ctx)
     try:
+        search_claims_with_a_slow_client(ctx)
+    except Exception as e:  # noqa
+        ctx.obligation_broken("harness:claims-with-a-slow-client", f"{type(e).__name__}: {e}")
+    try:
         search_simulator_fanout(ctx)
     except Exception as e:  # noqa
         ctx.obligation_broken("harness:simulator-fanout", f"{type(e).__name__}: {e}")
@@ -1240,6 +1275,11 @@ def run(ctx):
 
 
 def replay(inp):
+    if inp.get("kind") == "claims-with-a-slow-client":
+        from common import Ctx
+        c = Ctx("C04", "quick", 0)
+        search_claims_with_a_slow_client(c, only=inp["case"])
+        return bool(c.violations), c.violations[0]["observed"] if c.violations else "claimed by its own verb's consumer"
     if inp.get("kind") == "markup-payload":
         from common import Ctx
         c = Ctx("C04", "quick", 0)
